@@ -317,12 +317,12 @@ def repaired : Cfg :=
   { resetsFlags := true, metaCompare := true, tsPositive := true, voidClears := true, pushChecksType := true,
     setSliceReplaces := true, u32delReleases := true, u32delChecksType := true, incFailClean := true,
     noEmptyLive := true, arekAllFalse := true, countMissingOk := true, setErrSingle := true, fltCondDirect := true,
-    keyChecked := true, recreateKeepsPointer := true, saveReleasesImmediate := true, encoding := .gobOmitZero }
+    keyChecked := true, recreateKeepsPointer := true, patchAsksFirst := true, saveReleasesImmediate := true, encoding := .gobOmitZero }
 def current : Cfg :=
   { resetsFlags := false, metaCompare := false, tsPositive := false, voidClears := false, pushChecksType := false,
     setSliceReplaces := false, u32delReleases := false, u32delChecksType := false, incFailClean := false,
     noEmptyLive := false, arekAllFalse := false, countMissingOk := false, setErrSingle := false, fltCondDirect := false,
-    keyChecked := false, recreateKeepsPointer := false, saveReleasesImmediate := true, encoding := .gobOmitZero }
+    keyChecked := false, recreateKeepsPointer := false, patchAsksFirst := false, saveReleasesImmediate := true, encoding := .gobOmitZero }
 example : repaired.good = true := by decide
 example : current.good = false := by decide
 example : (runM current ar0 (init .mem)
@@ -359,6 +359,11 @@ structure Facts where
   keyChecked : Tri
   /-- write-buffer bookkeeping, invisible without a close (C05's subject) -/
   recreateKeepsPointer : Tri
+  /-- PatchTreasures is outside the request universe of `Holds`; the fact feeds the model of the correspondence run -/
+  patchAsksFirst : Tri
+  /-- the float setters compare bit patterns (no: with `==`; a narrow deviation the driver reproduces, outside `Holds`'s
+      arithmetic-free model of "same value") -/
+  fltSetBitwise : Tri
   saveReleasesImmediate : Tri
   /-- replies show every non-zero ExpiredAt (environment of the run, see `Arith.expNe0`; not part of
       the refinement statement, which holds for either value) -/
@@ -370,7 +375,7 @@ def hasUnknown (f : Facts) : Bool :=
   f.voidClears == .unknown || f.pushChecksType == .unknown || f.setSliceReplaces == .unknown ||
   f.u32delReleases == .unknown || f.u32delChecksType == .unknown || f.incFailClean == .unknown ||
   f.noEmptyLive == .unknown || f.arekAllFalse == .unknown || f.countMissingOk == .unknown ||
-  f.setErrSingle == .unknown || f.fltCondDirect == .unknown || f.keyChecked == .unknown || f.recreateKeepsPointer == .unknown ||
+  f.setErrSingle == .unknown || f.fltCondDirect == .unknown || f.keyChecked == .unknown || f.recreateKeepsPointer == .unknown || f.patchAsksFirst == .unknown || f.fltSetBitwise == .unknown ||
   f.saveReleasesImmediate == .unknown || f.wireExpNe0 == .unknown
 
 /-- the storage encoding does not occur in any request handler (it matters for C05 only) -/
@@ -382,7 +387,7 @@ def cfgOf (f : Facts) : Cfg :=
     noEmptyLive := f.noEmptyLive.isYes, arekAllFalse := f.arekAllFalse.isYes,
     countMissingOk := f.countMissingOk.isYes, setErrSingle := f.setErrSingle.isYes,
     fltCondDirect := f.fltCondDirect.isYes, keyChecked := f.keyChecked.isYes,
-    recreateKeepsPointer := f.recreateKeepsPointer.isYes, saveReleasesImmediate := f.saveReleasesImmediate.isYes, encoding := .gobOmitZero }
+    recreateKeepsPointer := f.recreateKeepsPointer.isYes, patchAsksFirst := f.patchAsksFirst.isYes, saveReleasesImmediate := f.saveReleasesImmediate.isYes, encoding := .gobOmitZero }
 
 def findings (c : Cfg) : List String :=
   (if c.resetsFlags then [] else ["C06-sticky-changed-flags"]) ++
